@@ -266,7 +266,7 @@ pub fn check_gradient(c: &GradCase, pixels: &[u32]) -> GradResult {
     res
 }
 
-fn gen_case(rng: &mut Rng) -> GradCase {
+pub fn gen_case(rng: &mut Rng) -> GradCase {
     let w = rng.int(4, 32) as i32;
     let h = rng.int(4, 32) as i32;
     let (wf, hf) = (w as f64, h as f64);
@@ -309,6 +309,16 @@ fn gen_case(rng: &mut Rng) -> GradCase {
         2 => 0.0,
         _ => 1.0,
     };
+    // a flat section: a stop that repeats the colour of the stop before it
+    let mut src = src;
+    if rng.chance(0.15) {
+        if let SrcSpec::Linear { stops, .. } | SrcSpec::Radial { stops, .. } | SrcSpec::TwoCircle { stops, .. } | SrcSpec::Sweep { stops, .. } = &mut src {
+            if stops.len() >= 3 {
+                let k = 1 + rng.below(stops.len() as u64 - 2) as usize;
+                stops[k].argb = stops[k - 1].argb;
+            }
+        }
+    }
     let (cx, cy) = (w as f32 / 2., h as f32 / 2.);
     let t = match rng.below(8) {
         0 | 1 | 2 => Transform::identity(),
@@ -333,6 +343,13 @@ fn case_desc(c: &GradCase) -> J {
 pub fn run_case(ctx: &Ctx, c: &GradCase, st: &mut Stats, want: bool) -> CaseOut {
     let mut co = CaseOut::default();
     co.hash = crate::prng::hash_str(&format!("{:?}{}{:?}", c.src, c.alpha, c.t));
+    // whatever an implementation remembers about a gradient must not depend on the transform it was first
+    // drawn under: draw the same source under a different transform (and alpha) first, in this thread
+    if co.hash % 3 == 0 {
+        let other = c.t.then_scale(1.5, 0.75).then_translate(euclid::vec2(2.5, -1.0));
+        let _ = probe_source(c.w, c.h, &other, &c.src, 1.0 - c.alpha * 0.5);
+        st.add("cases_preceded_by_the_same_gradient_under_another_transform", 1);
+    }
     let pixels = match probe_source(c.w, c.h, &c.t, &c.src, c.alpha) {
         Some(p) => p,
         None => {
